@@ -576,7 +576,13 @@ impl Check for Monitoring {
 }
 
 async fn settle_all(t: &mut Topo, st: &mut [Station], opens: &BTreeMap<IpAddr, (Option<bgp::Open>, bgp::Open, u32)>) {
-    for _ in 0..64 {
+    // A station that reads is drained until the daemon has nothing more for it: the connection may
+    // be slow (latency, a window of a few hundred bytes) and the backlog of a stalled station long, so
+    // "nothing arrived and nothing is in flight" must hold across a whole round trip, twice in a row,
+    // before the stations count as caught up.
+    let rtt = crate::verif_net::with_net(|n| n.connect_opts.latency_ms + n.connect_opts.jitter_ms) + 6;
+    let mut idle = 0;
+    for _ in 0..20_000 {
         t.settle().await;
         // keep the expectation current: what the DUT sent on the wire in the session that is up
         let mut opens = opens.clone();
@@ -595,9 +601,15 @@ async fn settle_all(t: &mut Topo, st: &mut [Station], opens: &BTreeMap<IpAddr, (
             }
         }
         if n == 0 && !in_flight {
-            break;
+            idle += 1;
+            if idle >= 2 {
+                break;
+            }
+            tokio::time::sleep(Duration::from_millis(rtt)).await;
+        } else {
+            idle = 0;
+            tokio::time::sleep(Duration::from_millis(5)).await;
         }
-        tokio::time::sleep(Duration::from_millis(5)).await;
     }
 }
 
